@@ -1079,8 +1079,12 @@ def _exec_srswor(case, mon):
         b = mon.lib(name, call, documented=documented)
     else:
         hb = R.HostileBernoulli(case["bern"])
-        with R.interpose_bernoulli(hb):
+        # whichever primitive the sampler draws from: the uniform generator is as hostile as the Bernoulli one
+        # (0.0, the smallest legal uniform, where the Bernoulli stub says 1; the largest float below 1 where it says 0)
+        uni = R.ConstFeeder({"ones": 0.0, "alternate": 0.0, "half": 0.5}.get(case["bern"], 1.0 - 2.0 ** -24))
+        with R.interpose_bernoulli(hb), R.interpose_rand(uni):
             b = mon.lib(name, call, documented=documented)
+        mon.ev("uniform-interposed", len(uni.calls))
         mon.ev("bernoulli-interposed", hb.calls)
         mon.stat("bernoulli-fractional-probabilities", hb.fractional)
     bshape = tuple(torch.as_tensor(targ).shape)
